@@ -16,10 +16,10 @@ def run(ctx):
     ev = ctx.work / "events.ndjson"
     if ctx.quick:
         ctx.dsv("C17", "drive", "--out", ev, "--max3d", 3, "--permille", 120, "--cover-depth", 1,
-                "--prisms", prisms, "--prism-cap", 60, timeout=7200)
+                "--prisms", prisms, "--prism-cap", 60, "--prism-over", 8, "--prism-over-cap", 40, timeout=7200)
     else:
         ctx.dsv("C17", "drive", "--out", ev, "--max3d", 4, "--permille", 100, "--cover-depth", 2,
-                "--prisms", prisms, "--prism-cap", 1500, "--prism-sheets", 3, timeout=14400)
+                "--prisms", prisms, "--prism-cap", 1500, "--prism-sheets", 3, "--prism-over", 9, "--prism-over-cap", 400, timeout=14400)
     for ln in open(ev):
         e = json.loads(ln)
         if e.get("reason") != "orbifold invariants do not match":
